@@ -15,7 +15,7 @@ var MenuCore = []string{
 var MenuMore = []string{
 	"c1:revert", "c1:store+create", "c1:clear+xfer", "c1:lowgas+badstk", "c1:vwithdrawall(s1)", "c1:vwithdrawmuch(s1)", "c1:von(s1)",
 	"c1:vsettle(s1)", "c1:dsubmuch(s1)", "c1:dsettle(s1)", "c1:dadd2(s1)", "c1:voff(h1)", "c1:vdeposit(h1)",
-	"c1:dadd(s1)+vwithdraw(s1)", "s1:!dsign(c1)",
+	"c1:dadd(s1)+vwithdraw(s1)", "s1:!dsign(c1)", "c1:vcreate(z1)", "c1:vwithdrawmost(s1)",
 }
 
 // Prefixes are scripted warm-up histories: exploration starts from the states
